@@ -425,12 +425,14 @@ def _restore_grammar(old):
 
 
 def _inputs(d, scale):
+    """The default inputs, scaled and shifted (the shift separates the three inputs of classes whose defaults are 0)."""
     out = {}
+    shift = (scale - 1.0) / 2.0
     for k, v in d.default_input_data.items():
         if isinstance(v, np.ndarray) and v.dtype.kind == "f":
-            out[k] = v * scale
+            out[k] = v * scale + shift
         elif isinstance(v, float):
-            out[k] = v * scale
+            out[k] = v * scale + shift
         elif isinstance(v, np.ndarray):
             out[k] = v.copy()
         else:
@@ -782,7 +784,7 @@ def _disc_case(case, tally):
                     if r0[1] != rk[1]:
                         bad("different-exception", f"{op} (step {step}): original raises {r0[2]}, restored twin {k} raises {rk[2]}", op=op[0])
                     raised_both = True
-                    tally.sets.setdefault("raises_on_both", set()).add(f"{name}: {op}: {r0[2][:90]}")
+                    tally.sets.setdefault("raises_on_both", set()).add(f"{name}: {op[0]}: {r0[2][:90]}")
                 elif r0[0] != rk[0]:
                     who = "restored" if rk[0] == "raise" else "original"
                     bad("restored-raises" if rk[0] == "raise" else "original-raises-restored-does-not", f"{op} (step {step}) raises on the {who} object only: {(rk if rk[0] == 'raise' else r0)[2]}", op=op[0])
@@ -1019,7 +1021,7 @@ def _snap_any(o):
 def _cmp_results(r0, rk, tol, label, bad, opk):
     """Compare the outcome of one operation on the original (r0) and on a restored twin (rk)."""
     if r0[0] == "raise" and rk[0] == "raise":
-        _BOTH_RAISE.add(f"{label.split(' on restored')[0].split(' (step')[0]}: {r0[2][:90]}")
+        _BOTH_RAISE.add(f"{opk}: {r0[2][:90]}")
         if r0[1] != rk[1]:
             bad("different-exception", f"{label}: original raises {r0[2]}, restored raises {rk[2]}", op=opk)
         return "both-raise"
@@ -1297,15 +1299,17 @@ def run(ctx):
     tally.merge(raw)
     tally.states += len(tally.sets.get("states", ()))
     tally.notes["aliasing_allowed"] = sorted(tally.sets.get("aliasing_allowed", ()))
-    tally.notes["operations_raising_on_original_and_restored_alike"] = sorted(tally.sets.get("raises_on_both", ()))[:60]
+    tally.notes["operations_raising_on_original_and_restored_alike"] = sorted(tally.sets.get("raises_on_both", ()))[:80]
     return {
         "level": LEVEL,
-        "rule": "every word over {execute(v1), execute(v2), linearize(v1), pickle round-trip, to_pickle/from_pickle} within the bound, on every buildable "
-                "class x grammar type x cache type; a round-trip adds a restored twin and later operations run on all twins; non-trivial = the word contains at least one "
-                "operation besides the round-trip",
+        "rule": "every word over {execute(v1), execute(v2), linearize(v1), pickle round-trip, to_pickle/from_pickle} within the bound (bounds.*), on every buildable "
+                "class of the discipline and MDA factories x grammar type x cache type (D), on MDOFunction trees (F: evaluate / jac), design spaces and optimization problems "
+                "at 4 stages of their life (P) and MDO/DOE scenarios (S: the operation is execute); a round-trip adds a restored twin and later operations run on all twins; "
+                "non-trivial = the word contains at least one operation besides the round-trip; states = distinct observable end states, transitions = operations and "
+                "round-trips executed on real objects, traces = words executed",
         "exhaustive": True,
         "bounds": bounds,
-        "assumptions": ["value alphabet: default inputs scaled by 3 factors (v1, v2, probe); 3 alphabets rotated by VERIF_SEED",
+        "assumptions": ["value alphabet: default inputs scaled by s and shifted by (s-1)/2 for 3 factors s (v1, v2, probe); 3 alphabets rotated by VERIF_SEED",
                         "classes needing Excel, a job scheduler or an external executable are not built (listed in classes_not_built)",
                         "iterative processes (MDA, ODE, inner optimization) are compared within a bound derived from their tolerance; everything else bitwise"],
     }
